@@ -58,7 +58,15 @@ static void execute(Run &r, Decoded &d, Src &s) {
 
 static void c16_sweep_case(size_t L, unsigned variant);
 
+static void trunc_case(unsigned di, size_t cut, unsigned variant, unsigned script);
+
 static void run_case(Src &s) {
+    if (s.left() >= 8 && s.p[s.i] == 0xAC) {  // literal truncation-sweep case
+        uint32_t c32;
+        memcpy(&c32, s.p + s.i + 4, 4);
+        trunc_case(s.p[s.i + 1], c32, s.p[s.i + 2], s.p[s.i + 3] % 9);
+        return;
+    }
     if (s.left() >= 6 && s.p[s.i] == 0xA9 && is16()) {  // literal sweep case written by the enumerator
         uint32_t l32;
         memcpy(&l32, s.p + s.i + 2, 4);
@@ -105,6 +113,12 @@ static void run_case(Src &s) {
 }
 
 static void describe_case(Src &s, FILE *out) {
+    if (s.left() >= 8 && s.p[s.i] == 0xAC) {
+        uint32_t c32;
+        memcpy(&c32, s.p + s.i + 4, 4);
+        fprintf(out, "  truncation-sweep case: document %u cut at %u, %s closing byte, script %u\n", s.p[s.i + 1], c32, (s.p[s.i + 2] & 1) ? "with" : "without", s.p[s.i + 3] % 9);
+        return;
+    }
     if (s.left() >= 6 && s.p[s.i] == 0xA9 && is16()) {
         uint32_t l32;
         memcpy(&l32, s.p + s.i + 2, 4);
@@ -200,10 +214,161 @@ static void c16_sweep_case(size_t L, unsigned variant) {
     if (cnt.tokens > doc.size() + 1) fail("verify/tokens>len", cnt.tokens, doc.size());
 }
 
+
+// ---------------------------------------------------------------------------
+// C01 deterministic sweep: a set of documents that together hold every token kind with 1-, 2- and 4-byte length
+// prefixes is cut at EVERY offset (with and without the closing byte appended), and fixed call scripts - walk
+// entering everything, lookups of smaller / equal / larger names at every level, verify, to_string, get_raw - run
+// over each prefix in exactly-sized heap blocks.  Oracle: ASan/UBSan silence, spans inside the buffer.
+static void trunc_script(const Bytes &doc, bool arr, unsigned script) {
+    Run r;
+    r.doc = doc;
+    r.pb.make(12, nullptr, 0, 0);
+    r.pb.set_input(doc);
+    r.wbuf.alloc(2 * doc.size() + 16);
+    binson_writer_init(&r.w, r.wbuf.p, r.wbuf.n);
+    binson_parser *p = r.pb.p;
+    r.cur_buf = r.pb.input.p;
+    r.cur_len = r.pb.input.n;
+    bool ok = arr ? binson_parser_init_array(p, r.pb.input.p, r.pb.input.n) : binson_parser_init_object(p, r.pb.input.p, r.pb.input.n);
+    (void)ok;  // results are ignored on purpose
+    auto spans = [&]() {
+        r.check_span("get_name", p->error_flags == BINSON_ERROR_NONE && !arr ? binson_parser_get_name(p) : nullptr);
+        r.check_span("get_string_bbuf", binson_parser_get_string_bbuf(p));
+        r.check_span("get_bytes_bbuf", binson_parser_get_bytes_bbuf(p));
+    };
+    static const char *probes[] = {"", "a", "m", "zz", "\x7f\x7f"};
+    switch (script) {
+    case 0: {  // walk entering everything
+        std::vector<bool> st;
+        if (!(arr ? binson_parser_go_into_array(p) : binson_parser_go_into_object(p))) break;
+        st.push_back(!arr);
+        for (int k = 0; k < 400 && !st.empty(); k++) {
+            if (!binson_parser_next(p)) { if (!(st.back() ? binson_parser_leave_object(p) : binson_parser_leave_array(p))) break; st.pop_back(); continue; }
+            if (st.back()) r.check_span("get_name", binson_parser_get_name(p));
+            r.check_span("get_string_bbuf", binson_parser_get_string_bbuf(p));
+            r.check_span("get_bytes_bbuf", binson_parser_get_bytes_bbuf(p));
+            binson_type t = binson_parser_get_type(p);
+            if (t == BINSON_TYPE_OBJECT && binson_parser_go_into_object(p)) st.push_back(true);
+            else if (t == BINSON_TYPE_ARRAY && binson_parser_go_into_array(p)) st.push_back(false);
+        }
+        break;
+    }
+    case 1: case 2: case 3: case 4: case 5: {  // lookups with one probe name at every object level reached by diving
+        const char *nm = probes[script - 1];
+        if (arr) { if (!binson_parser_go_into_array(p)) break; if (!binson_parser_next(p)) break; if (binson_parser_get_type(p) != BINSON_TYPE_OBJECT || !binson_parser_go_into_object(p)) break; }
+        else if (!binson_parser_go_into_object(p)) break;
+        for (int lvl = 0; lvl < 6; lvl++) {
+            for (int rep = 0; rep < 3; rep++) { bool f = binson_parser_field(p, nm); if (f) spans(); }
+            bool f = binson_parser_field_ensure(p, "o", BINSON_TYPE_OBJECT);  // descend through a field named "o" when present
+            if (!f || !binson_parser_go_into_object(p)) break;
+        }
+        while (binson_parser_next(p)) spans();
+        binson_parser_leave_object(p);
+        break;
+    }
+    case 6: (void)binson_parser_verify(p); break;
+    case 7: {
+#ifdef BINSON_PARSER_WITH_PRINT
+        size_t sz = 0;
+        binson_parser_to_string(p, nullptr, &sz, false);
+        Block dst(sz);
+        size_t cap = sz;
+        binson_parser_to_string(p, (char *)dst.p, &cap, false);
+#endif
+        break;
+    }
+    default: {  // next + get_raw / to_writer on everything at the top level
+        if (!(arr ? binson_parser_go_into_array(p) : binson_parser_go_into_object(p))) break;
+        for (int k = 0; k < 40 && binson_parser_next(p); k++) {
+            bbuf raw;
+            if (binson_parser_get_raw(p, &raw)) r.check_span("get_raw", &raw);
+        }
+        break;
+    }
+    }
+    if (!r.pb.input_intact()) r.fail("any", "input-modified", "the input buffer was modified");
+}
+
+static std::vector<std::pair<Bytes, bool>> trunc_docs() {
+    std::vector<std::pair<Bytes, bool>> docs;
+    auto named = [](Value v, Bytes n) { v.has_name = true; v.name = n; return v; };
+    Value i8; i8.k = ref::K_INT; i8.i = 5;
+    Value i16 = i8; i16.i = 300;
+    Value i32 = i8; i32.i = 70000;
+    Value i64 = i8; i64.i = (int64_t)1 << 40;
+    Value d; d.k = ref::K_DBL; d.d = 0x400921fb54442d18ULL;
+    Value t; t.k = ref::K_BOOL; t.b = true;
+    Value s1; s1.k = ref::K_STR; s1.s = Bytes(3, 's');
+    Value s2 = s1; s2.s = Bytes(130, 's');
+    Value b1; b1.k = ref::K_BYT; b1.s = Bytes(2, 0x80);
+    Value b2 = b1; b2.s = Bytes(131, 0x81);
+    Value inner; inner.k = ref::K_OBJ; inner.c.push_back(named(i8, Bytes{'a'})); inner.c.push_back(named(s1, Bytes{'q'}));
+    Value arr; arr.k = ref::K_ARR; arr.c.push_back(i8); arr.c.push_back(inner); arr.c.push_back(s1);
+    // object with short names and every scalar kind
+    { Value o; o.k = ref::K_OBJ; o.c = {named(i8, Bytes{'a'}), named(i16, Bytes{'b'}), named(i32, Bytes{'c'}), named(i64, Bytes{'d'}), named(d, Bytes{'e'}), named(t, Bytes{'f'}), named(s1, Bytes{'g'}),
+                                        named(b1, Bytes{'h'}), named(arr, Bytes{'n'}), named(inner, Bytes{'o'}), named(s2, Bytes{'p'}), named(b2, Bytes{'q'})};
+      docs.push_back({ref::encode(o), false}); }
+    // names with 2-byte length prefixes (128..140 bytes), small values in between
+    { Value o; o.k = ref::K_OBJ; o.c = {named(i8, Bytes{'a'}), named(i8, Bytes(128, 'k')), named(inner, Bytes(129, 'k')), named(s1, Bytes(140, 'l')), named(inner, Bytes{'o'})};
+      std::sort(o.c.begin(), o.c.end(), [](const Value &x, const Value &y) { return ref::cmp_bytes(x.name, y.name) < 0; });
+      docs.push_back({ref::encode(o), false}); }
+    // nested objects reachable through "o"
+    { Value l3 = inner; Value l2; l2.k = ref::K_OBJ; l2.c = {named(i8, Bytes{'a'}), named(l3, Bytes{'o'}), named(i16, Bytes{'z'})};
+      Value l1; l1.k = ref::K_OBJ; l1.c = {named(arr, Bytes{'a'}), named(l2, Bytes{'o'}), named(s1, Bytes{'z', 'z'})};
+      docs.push_back({ref::encode(l1), false}); }
+    // array roots
+    { Value a; a.k = ref::K_ARR; a.c = {inner, i8, arr, s2, b1, d, t};
+      docs.push_back({ref::encode(a), true}); }
+    { Value a; a.k = ref::K_ARR; Value deep = i8; for (int k = 0; k < 6; k++) { Value w; w.k = ref::K_ARR; w.c.push_back(deep); w.c.push_back(i8); deep = w; } a.c = {deep, inner};
+      docs.push_back({ref::encode(a), true}); }
+    // a name with a 4-byte length prefix
+    { Value o; o.k = ref::K_OBJ; o.c = {named(i8, Bytes{'a'}), named(i8, Bytes(33000, 'k')), named(i8, Bytes{'z'})};
+      docs.push_back({ref::encode(o), false}); }
+    return docs;
+}
+
+static void trunc_case(unsigned di, size_t cut, unsigned variant, unsigned script) {
+    std::vector<std::pair<Bytes, bool>> docs = trunc_docs();
+    const Bytes &full = docs[di % docs.size()].first;
+    bool arr = docs[di % docs.size()].second;
+    if (cut > full.size()) cut = full.size();
+    Bytes doc(full.begin(), full.begin() + (long)cut);
+    if (variant & 1) doc.push_back(arr ? 0x43 : 0x41);
+    trunc_script(doc, arr, script);
+}
+
 static void on_sweep_alarm(int) { _exit(77); }
 
 #define VH_HAS_ENUM
 static int enumerate(int shard, int nshards, const char *tier) {
+    if (!is16() && !is09()) {
+        // C01: all truncation points
+        std::vector<std::pair<Bytes, bool>> docs = trunc_docs();
+        Stats &st = stats();
+        unsigned idx = 0;
+        for (unsigned di = 0; di < docs.size(); di++) {
+            size_t n = docs[di].first.size();
+            for (size_t cut = 0; cut <= n; cut++) {
+                if (n > 2000 && cut > 40 && cut + 40 < n && (cut % 257) != 0) continue;  // the 33000-byte name: both ends densely, the middle sampled
+                for (unsigned variant = 0; variant < 2; variant++)
+                    for (unsigned script = 0; script < 9; script++) {
+                        if ((int)(idx++ % (unsigned)nshards) != shard) continue;
+                        uint8_t cs[8] = {0xAC, (uint8_t)di, (uint8_t)variant, (uint8_t)script};
+                        uint32_t c32 = (uint32_t)cut;
+                        memcpy(cs + 4, &c32, 4);
+                        vh_save_fail_case(cs, 8);  // saved before the run: a sanitizer abort leaves the case behind
+                        trunc_case(di, cut, variant, script);
+                        st.evaluations++;
+                        st.count("enum_truncation_cases");
+                        if ((idx & 7) == 0) st.nontrivial(mix(mix(0xACAC, di * 100000 + cut), variant * 16 + script));
+                    }
+            }
+        }
+        if (const char *path = getenv("VH_FAIL")) remove(path);
+        (void)tier;
+        return 0;
+    }
     if (!is16()) return 0;
     bool thorough = tier && !strcmp(tier, "thorough");
     std::vector<size_t> Ls;
